@@ -312,6 +312,9 @@ type Stmt struct {
 	SQL     string   `json:"sql,omitempty"`     // rendered text; empty = execute as direct statement values
 	// harness directives attached to the statement
 	FlushAfter bool `json:"flush,omitempty"`
+	// Fails: the statement is invalid on purpose (an oversize or mistyped row);
+	// it must be refused, it is not applied to the model and changes nothing
+	Fails bool `json:"fails,omitempty"`
 }
 
 func (s Stmt) String() string {
